@@ -29,10 +29,34 @@ let eval (op : string) (a : z array) : string =
   | "N" -> mel_s (mnew a.(0) a.(1))
   | _ -> "unknown-op"
 
+(* handler cases:  H <handler> ; f:l f:l ... ; s:p ... ; o:b ... ; <outcome> ; m m ...   (small naturals only) *)
+let rec nat_of_int (n : int) : nat = if n <= 0 then O else S (nat_of_int (n - 1))
+let pairs_of (s : string) : (nat * nat) list =
+  List.filter_map (fun tok ->
+    if tok = "" then None else
+    match String.split_on_char ':' tok with
+    | [a; b] -> Some (nat_of_int (int_of_string a), nat_of_int (int_of_string b))
+    | _ -> None) (String.split_on_char ' ' (String.trim s))
+let nats_of (s : string) : nat list =
+  List.filter_map (fun tok -> if tok = "" then None else Some (nat_of_int (int_of_string tok))) (String.split_on_char ' ' (String.trim s))
+let handler_line (line : string) : bool =
+  match String.split_on_char ';' line with
+  | [h; lens; subs; orcs; out; muts] ->
+    let h = nat_of_int (int_of_string (String.trim (String.sub h 1 (String.length h - 1)))) in
+    hcase_ok (((((h, pairs_of lens), pairs_of subs), pairs_of orcs), nat_of_int (int_of_string (String.trim out))), nats_of muts)
+  | _ -> false
+
 let () =
   let total = ref 0 and bad = ref 0 in
   (try while true do
     let line = input_line stdin in
+    if String.length line > 0 && line.[0] = 'H' then begin
+      incr total;
+      if not (handler_line line) then begin
+        incr bad;
+        if !bad <= 20 then Printf.printf "MISMATCH %s\n" line
+      end
+    end else
     match String.index_opt line '|' with
     | None -> ()
     | Some i ->
